@@ -180,6 +180,7 @@ func (t *Transaction) Write(p []byte) (n int, err error) {
 	copy(t.ParamCount[:], p[20:22])
 
 	scanner := bufio.NewScanner(bytes.NewReader(p[22:tranLen]))
+	scanner.Buffer(nil, len(p)+1) // a field may be as large as the transaction; the default token limit is 64 KiB
 	scanner.Split(FieldScanner)
 
 	for i := 0; i < int(paramCount); i++ {
